@@ -203,6 +203,9 @@ def do_part(test, ph, part):
                 stream.write("TOK%dK\n" % tok)
     if part.get("fd2"):
         os.write(2, part["fd2"].encode("latin-1"))
+    if part.get("chdir"):
+        import tempfile
+        os.chdir(tempfile.gettempdir())
     exc = part.get("exc")
     if exc in ("exit0", "exit3", "sigkill", "segv"):
         trace({"ev": "die", "how": exc})
